@@ -235,6 +235,7 @@ func zzC04WireGrease() {
 	}
 	spec, _ := UTLSIdToSpec(p.id)
 	h, why := zzRefParseClientHello(uc.HandshakeState.Hello.Raw)
+	verifAssertClass(why == "", "hello-parses-strictly", p.name+":"+why)
 	if why != "" {
 		verifReach("end")
 		return
@@ -398,6 +399,7 @@ func zzC18KeySharesBacked() {
 		return
 	}
 	h, why := zzRefParseClientHello(uc.HandshakeState.Hello.Raw)
+	verifAssertClass(why == "", "hello-parses-strictly", p.name+":"+why)
 	if why != "" {
 		verifReach("end")
 		return
